@@ -1,6 +1,7 @@
 package rules
 
 import (
+	"sort"
 	"fmt"
 	"go/token"
 	"go/types"
@@ -77,15 +78,64 @@ func (c *Ctx) checkDeduplicate() {
 		sv, sfr := fr.resolveDeep(cc.Args[0])
 		src := sfr.up == nil && isRowString(sv)
 		to, _ := cStr(constOf(cc.Args[2]))
-		from, _ := cStr(constOf(cc.Args[1]))
-		okW := from == "N" || from == "X"
 		all := true
 		if isPkgFunc(cc, "strings", "Replace") {
 			n, isN := constInt(cc.Args[3])
 			all = isN && n < 0
 		}
-		L.Check(src && to == gap && okW && all, "dedup-fold", r.label, "fold "+from+" → "+to, c.P.Pos(call.Pos()), "ReplaceAll(row, wildcard, GAP) on the row's own residues",
-			fmt.Sprintf("the comparison key is not the row with every wildcard replaced by the gap (source is the row: %v, from %q to %q, all occurrences: %v)", src, from, to, all))
+		// the wildcard folded: a constant, or a variable chosen once before the loop (a φ of
+		// constants); the empty string may be among its values only if the call is reached under
+		// `wildcard != ""`
+		wv, wfr := fr.resolveDeep(cc.Args[1])
+		var froms []string
+		okLeaves := true
+		for lf := range throughPhis(wv, false) {
+			if _, isPhi := lf.(*ssa.Phi); isPhi {
+				continue
+			}
+			if sc, ok := cStr(constOf(lf)); ok {
+				froms = append(froms, sc)
+			} else if cv, isCv := lf.(*ssa.Convert); isCv {
+				if k, ok := constInt(cv.X); ok {
+					froms = append(froms, string(rune(k)))
+				} else {
+					okLeaves = false
+				}
+			} else {
+				okLeaves = false
+			}
+		}
+		sort.Strings(froms)
+		guardedNonEmpty := false
+		if wfr.fn == call.Parent() || true {
+			bf := computeBranchFacts(call.Parent())
+			allInstrs(call.Parent(), func(in2 ssa.Instruction) {
+				bo, ok := in2.(*ssa.BinOp)
+				if !ok || (bo.Op != token.NEQ && bo.Op != token.EQL) {
+					return
+				}
+				if (bo.X == cc.Args[1] && isEmptyString(bo.Y)) || (bo.Y == cc.Args[1] && isEmptyString(bo.X)) {
+					if bf.knownAt(call.Block(), bo, bo.Op == token.NEQ) {
+						guardedNonEmpty = true
+					}
+				}
+			})
+		}
+		if !okLeaves || len(froms) == 0 {
+			L.Bad("dedup-fold", r.label, "fold ? → "+to, c.P.Pos(call.Pos()), "the character folded into the gap is not a constant wildcard")
+			return true
+		}
+		for _, from := range froms {
+			if from == "" {
+				if !guardedNonEmpty {
+					L.Bad("dedup-fold", r.label, "fold \"\" → "+to, c.P.Pos(call.Pos()), "ReplaceAll can be called with an empty pattern (it would insert the gap between all characters)")
+				}
+				continue
+			}
+			okW := from == "N" || from == "X"
+			L.Check(src && to == gap && okW && all, "dedup-fold", r.label, "fold "+from+" → "+to, c.P.Pos(call.Pos()), "ReplaceAll(row, wildcard, GAP) on the row's own residues",
+				fmt.Sprintf("the comparison key is not the row with every wildcard replaced by the gap (source is the row: %v, from %q to %q, all occurrences: %v)", src, from, to, all))
+		}
 		return true
 	})
 	L.Floor("dedup-fold", 2, "one fold per alphabet")
